@@ -27,7 +27,12 @@ Init == /\ sys \in 1..Len(Systems)
         /\ viol = NodeClauses(Cfg(sys), g, NodeOf(sys, node), "init") \cap Watch
         /\ path = <<>>
 
+\* the ghost's queue of outstanding changes is followed up to this length (a table can contain a cycle
+\* on which an implementation keeps accepting changes without ever queueing them)
+MaxPend == 8
+
 Next == /\ viol = {}
+        /\ Len(g.pend) <= MaxPend
         /\ \E k \in 1..Len(EdgesOf(sys, node)) :
              LET ed == EdgesOf(sys, node)[k]
                  e  == ed.ev
